@@ -187,7 +187,7 @@ class Tracker:
 
 NS = 6
 # operations whose results must never share storage with another live object
-UNSHARED_OPS = {"newvec", "copy", "slice", "arith", "tabfrom", "stack", "setattr", "burst"}
+UNSHARED_OPS = {"newvec", "copy", "slice", "arith", "tabfrom", "stack", "setattr", "burst", "concat"}
 
 
 def choose(rng, w):
@@ -197,7 +197,7 @@ def choose(rng, w):
     dst = rng.randrange(NS)
     menu = [("newvec", 4), ("sharetuple", 3), ("burst", 4), ("gc", 1), ("drop", 3), ("pool", 1)]
     if vecs:
-        menu += [("shareof", 3), ("copy", 1), ("slice", 1), ("write", 10), ("arith", 1), ("tabfrom", 2)]
+        menu += [("shareof", 3), ("copy", 1), ("slice", 1), ("write", 10), ("arith", 1), ("tabfrom", 2), ("concat", 3)]
     if len(vecs) >= 1:
         menu += [("stack", 4)]
     if tabs:
@@ -219,6 +219,9 @@ def choose(rng, w):
         return {"op": op, "dst": dst, "src": rng.choice(vecs), "key": rng.choice([[None, None], [0, None], [None, 2], [0, 2], [1, None], [0, 1], [-3, None]])}
     if op in ("shareof", "copy", "arith"):
         return {"op": op, "dst": dst, "src": rng.choice(vecs)}
+    if op == "concat":
+        # `<<` with nothing to add on one side: the result is still an operation result with storage of its own
+        return {"op": op, "dst": dst, "src": rng.choice(vecs), "form": rng.choice(["list0", "vec0", "rlist0", "tuple0", "vec0l", "list1", "mask0", "sort"])}
     if op == "write":
         return {"op": op, "r": rng.choice(vecs), "promote": rng.random() < 0.2, "form": rng.choice(["int", "int", "slice", "mask"])}
     if op == "tabfrom":
@@ -318,6 +321,25 @@ def run_step(slots, pool, st):
         del src
     elif op == "arith":
         slots[st["dst"]] = slots[st["src"]] + 1
+    elif op == "concat":
+        src, f = slots[st["src"]], st.get("form")
+        if f == "list0":
+            slots[st["dst"]] = src << []
+        elif f == "tuple0":
+            slots[st["dst"]] = src << ()
+        elif f == "vec0":
+            slots[st["dst"]] = src << src[0:0]
+        elif f == "vec0l":
+            slots[st["dst"]] = src[0:0] << src
+        elif f == "rlist0":
+            slots[st["dst"]] = [] << src
+        elif f == "mask0":
+            slots[st["dst"]] = src[[True] * len(src)]
+        elif f == "sort":
+            slots[st["dst"]] = src.sort_by()
+        else:
+            slots[st["dst"]] = src << [7]
+        del src
     elif op == "tabfrom":
         vs = [slots[i] for i in st["srcs"]]
         slots[st["dst"]] = Table(vs) if st["form"] == "list" else Table({"c%d" % i: list(v) for i, v in enumerate(vs)})
@@ -381,7 +403,7 @@ def applicable(kinds, st):
     def k(i):
         return kinds[i]
     op = st["op"]
-    if op in ("shareof", "copy", "slice", "arith"):
+    if op in ("shareof", "copy", "slice", "arith", "concat"):
         return k(st["src"]) == "v"
     if op == "write":
         return k(st["r"]) == "v"
